@@ -20,7 +20,7 @@ from vf.gen import libgen
 LEVEL = "translation_validation"
 
 CONFIGS = [
-    ["-c", "-fnames"], ["-c", "-fnames", "-string"], ["-c", "-fnames", "-true-names"],
+    ["-c", "-fnames"], ["-c", "-fnames", "-string"], ["-python", "-true-names"],
     ["-c", "-fnames", "-unique-names", "-string"], ["-c", "-fnames", "-promiscuous", "-string"],
     ["-python", "-fnames"], ["-python", "-fnames", "-unique-names"],
     ["-python-native", "-string"], ["-python-native", "-string", "-unique-names"],
@@ -281,13 +281,13 @@ def main(chk):
     rng = chk.rng
     cases = []
     cid = 0
-    for i in range(chk.pick(6, 50)):
+    for i in range(chk.pick(20, 300)):
         libseed = rng.randrange(1 << 30)
         for cfg in (CONFIGS if not chk.quick() else rng.sample(CONFIGS, 5)):
             cid += 1
             cases.append(dict(id=cid, libseed=libseed, cfg=cfg, size=0.8))
     # signatures whose 24-bit hashes collide (the name of an already recorded wrapper must not change)
-    for i in range(chk.pick(6, 40)):
+    for i in range(chk.pick(12, 200)):
         cid += 1
         cases.append(dict(id=cid, libseed=rng.randrange(1 << 30), collide=rng.choice([2, 3, 4, 6]),
                           cfg=rng.choice([["-c", "-fnames"], ["-c", "-python", "-fnames"], ["-python", "-fnames"],
